@@ -208,7 +208,11 @@ func mergePossibleTypes(sources []*ast.Schema, mergedTypes map[string]*ast.Defin
 func mergeRootObjects(aTypes, bTypes map[string]*ast.Definition, a, b *ast.Definition) (*ast.Definition, error) {
 	var fields ast.FieldList = a.Fields
 	for _, f := range b.Fields {
-		if common.IsBuiltinName(f.Name) || isNodeField(f) {
+		if common.IsBuiltinName(f.Name) {
+			continue
+		}
+		// node field may be declared by many services, it's kept once
+		if isNodeField(f) && fields.ForName(f.Name) != nil {
 			continue
 		}
 
